@@ -32,25 +32,25 @@ theorem treepath_errors (sk : Skel) (args : Args) (σ : Single) (x : String) (b 
 /-! ### both flags pass through flag-transparent leaf types exactly -/
 
 /-- the transient flags of `b` are those of `a` -/
-def FlagsEq (a b : CState) : Prop := b.tp = a.tp ∧ b.flatten = a.flatten
+def CFlagsEq (a b : CState) : Prop := b.tp = a.tp ∧ b.flatten = a.flatten
 
-theorem FlagsEq.refl (a : CState) : FlagsEq a a := ⟨rfl, rfl⟩
+theorem CFlagsEq.refl (a : CState) : CFlagsEq a a := ⟨rfl, rfl⟩
 
-theorem FlagsEq.trans {a b c : CState} (h1 : FlagsEq a b) (h2 : FlagsEq b c) : FlagsEq a c :=
+theorem CFlagsEq.trans {a b c : CState} (h1 : CFlagsEq a b) (h2 : CFlagsEq b c) : CFlagsEq a c :=
   ⟨h2.1.trans h1.1, h2.2.trans h1.2⟩
 
-def LeafEq (f : Obj → CState → CState × Verdict) : Prop := ∀ x st, FlagsEq st (f x st).1
+def LeafEq (f : Obj → CState → CState × Verdict) : Prop := ∀ x st, CFlagsEq st (f x st).1
 
 theorem wrapNode_fst' (k : Kind) (p : CState × FlatListRes) : (wrapNode k p).1 = p.1 := by
   rcases p with ⟨st, _ | _⟩ <;> rfl
 
 mutual
 theorem flat_flags (f : Obj → CState → CState × Verdict) (hf : LeafEq f) (u : Bool) :
-    ∀ (x : Obj) (st : CState), FlagsEq st (flat f u x st).1
+    ∀ (x : Obj) (st : CState), CFlagsEq st (flat f u x st).1
   | x, st => by
-    have h0 : FlagsEq st (if u then f x st else (st, Verdict.F)).1 := by
+    have h0 : CFlagsEq st (if u then f x st else (st, Verdict.F)).1 := by
       cases u
-      · exact FlagsEq.refl st
+      · exact CFlagsEq.refl st
       · exact hf x st
     rw [flat]
     generalize (if u then f x st else (st, Verdict.F)) = r at h0
@@ -75,8 +75,8 @@ theorem flat_flags (f : Obj → CState → CState × Verdict) (hf : LeafEq f) (u
       | «opaque» t => exact h0
       | arr c a => exact h0
 theorem flatList_flags (f : Obj → CState → CState × Verdict) (hf : LeafEq f) (u : Bool) :
-    ∀ (xs : List Obj) (st : CState), FlagsEq st (flatList f u xs st).1
-  | [], st => by rw [flatList]; exact FlagsEq.refl st
+    ∀ (xs : List Obj) (st : CState), CFlagsEq st (flatList f u xs st).1
+  | [], st => by rw [flatList]; exact CFlagsEq.refl st
   | x :: xs, st => by
     have h1 := flat_flags f hf u x st
     rw [flatList]
@@ -93,8 +93,8 @@ end
 
 theorem leafLoop_flags (sk : Skel) (hgd : sk.treepathGuarded = true)
     (f : Obj → CState → CState × Verdict) (hf : LeafEq f) :
-    ∀ (xs : List Obj) (i : Nat) (st : CState), FlagsEq st (leafLoop sk f none xs i st).1
-  | [], i, st => by rw [leafLoop]; exact FlagsEq.refl st
+    ∀ (xs : List Obj) (i : Nat) (st : CState), CFlagsEq st (leafLoop sk f none xs i st).1
+  | [], i, st => by rw [leafLoop]; exact CFlagsEq.refl st
   | x :: xs, i, st => by
     rw [leafLoop]
     have h1 := hf x st
@@ -105,12 +105,12 @@ theorem leafLoop_flags (sk : Skel) (hgd : sk.treepathGuarded = true)
     simp only [hgd, Option.isNone_none, Bool.and_self, if_true]
     exact h1.trans (leafLoop_flags sk hgd f hf xs (i + 1) st2)
 
-theorem LeafEq_const : LeafEq (fun _ s => (s, Verdict.T)) := fun _ st => FlagsEq.refl st
+theorem LeafEq_const : LeafEq (fun _ s => (s, Verdict.T)) := fun _ st => CFlagsEq.refl st
 
 theorem pytreeCore_flags (sk : Skel)
     (hg : sk.Good ∧ sk.treepathGuarded = true ∧ sk.flattenRestores = true)
     (f : Obj → CState → CState × Verdict) (hf : LeafEq f) (leafAny : Bool) (x : Obj)
-    (st : CState) : FlagsEq st (pytreeCore sk f leafAny none x st).1 := by
+    (st : CState) : CFlagsEq st (pytreeCore sk f leafAny none x st).1 := by
   obtain ⟨⟨hfin, htin⟩, hgd, hrs⟩ := hg
   unfold pytreeCore
   simp only [hfin, htin, hgd, hrs, if_true, Option.isNone_none, Bool.and_self]
@@ -126,23 +126,23 @@ theorem pytreeCore_flags (sk : Skel)
       (⟨{ st1.memo with pytree := st1.memo.pytree }, st1.tp, st.flatten, st1.noCtx⟩ : CState)
     generalize leafLoop sk _ none leaves 0 _ = L at hl ⊢
     obtain ⟨st4, v⟩ := L
-    have key : FlagsEq st st4 := ⟨hl.1.trans hflat.1, hl.2⟩
+    have key : CFlagsEq st st4 := ⟨hl.1.trans hflat.1, hl.2⟩
     cases v <;> exact key
   · exact ⟨hflat.1, rfl⟩
 
-theorem FlagsEq.congr {a b a' b' : CState} (h : FlagsEq a b) (ha1 : a'.flatten = a.flatten)
-    (ha2 : a'.tp = a.tp) (hb1 : b'.flatten = b.flatten) (hb2 : b'.tp = b.tp) : FlagsEq a' b' := by
-  unfold FlagsEq
+theorem CFlagsEq.congr {a b a' b' : CState} (h : CFlagsEq a b) (ha1 : a'.flatten = a.flatten)
+    (ha2 : a'.tp = a.tp) (hb1 : b'.flatten = b.flatten) (hb2 : b'.tp = b.tp) : CFlagsEq a' b' := by
+  unfold CFlagsEq
   rw [ha1, ha2, hb1, hb2]
   exact h
 
 theorem pytreeInstancecheck_flags (sk : Skel)
     (hg : sk.Good ∧ sk.treepathGuarded = true ∧ sk.flattenRestores = true)
     (f : Obj → CState → CState × Verdict) (hf : LeafEq f) (leafAny : Bool) (x : Obj)
-    (st : CState) : FlagsEq st (pytreeInstancecheck sk f leafAny none x st).1 := by
+    (st : CState) : CFlagsEq st (pytreeInstancecheck sk f leafAny none x st).1 := by
   unfold pytreeInstancecheck
   split
-  · exact FlagsEq.refl st
+  · exact CFlagsEq.refl st
   · have h := pytreeCore_flags sk hg f hf leafAny x
       (if st.noCtx = true then { st with memo := {} } else st)
     have h1 : (if st.noCtx = true then { st with memo := {} } else st).flatten = st.flatten := by
@@ -168,10 +168,10 @@ theorem pytreeInstancecheck_flags (sk : Skel)
       · exact h.congr h1.symm h2.symm rfl rfl
 
 theorem checkLs_flags (sk : Skel) : ∀ (ts : List LType),
-    (∀ t ∈ ts, ∀ x st, FlagsEq st (checkL sk t x st).1) →
-    ∀ xs st, FlagsEq st (checkLs sk ts xs st).1
-  | [], _, xs, st => by rw [checkLs]; exact FlagsEq.refl st
-  | _ :: _, _, [], st => by rw [checkLs]; exact FlagsEq.refl st
+    (∀ t ∈ ts, ∀ x st, CFlagsEq st (checkL sk t x st).1) →
+    ∀ xs st, CFlagsEq st (checkLs sk ts xs st).1
+  | [], _, xs, st => by rw [checkLs]; exact CFlagsEq.refl st
+  | _ :: _, _, [], st => by rw [checkLs]; exact CFlagsEq.refl st
   | t :: ts, h, x :: xs, st => by
     rw [checkLs]
     have h1 := h t (List.mem_cons_self ..) x st
@@ -181,9 +181,9 @@ theorem checkLs_flags (sk : Skel) : ∀ (ts : List LType),
     exact h1.trans (checkLs_flags sk ts (fun t ht => h t (List.mem_cons_of_mem _ ht)) xs st1)
 
 theorem checkLU_flags (sk : Skel) : ∀ (ts : List LType),
-    (∀ t ∈ ts, ∀ x st, FlagsEq st (checkL sk t x st).1) →
-    ∀ x st, FlagsEq st (checkLU sk ts x st).1
-  | [], _, x, st => by rw [checkLU]; exact FlagsEq.refl st
+    (∀ t ∈ ts, ∀ x st, CFlagsEq st (checkL sk t x st).1) →
+    ∀ x st, CFlagsEq st (checkLU sk ts x st).1
+  | [], _, x, st => by rw [checkLU]; exact CFlagsEq.refl st
   | t :: ts, h, x, st => by
     rw [checkLU]
     have h1 := h t (List.mem_cons_self ..) x st
@@ -195,33 +195,33 @@ theorem checkLU_flags (sk : Skel) : ∀ (ts : List LType),
 theorem checkL_flagsEq (sk : Skel)
     (hg : sk.Good ∧ sk.treepathGuarded = true ∧ sk.flattenRestores = true)
     (l : LType) (hl : FlagTransparent l) (x : Obj) (st : CState) :
-    FlagsEq st (checkL sk l x st).1 := by
+    CFlagsEq st (checkL sk l x st).1 := by
   induction hl generalizing x st with
-  | any => unfold checkL; exact FlagsEq.refl st
-  | int => unfold checkL; exact FlagsEq.refl st
-  | str => unfold checkL; exact FlagsEq.refl st
-  | noneT => unfold checkL; exact FlagsEq.refl st
-  | bare => unfold checkL; exact FlagsEq.refl st
+  | any => unfold checkL; exact CFlagsEq.refl st
+  | int => unfold checkL; exact CFlagsEq.refl st
+  | str => unfold checkL; exact CFlagsEq.refl st
+  | noneT => unfold checkL; exact CFlagsEq.refl st
+  | bare => unfold checkL; exact CFlagsEq.refl st
   | user acc f =>
     unfold checkL
     split
-    · split <;> exact FlagsEq.refl st
-    · exact FlagsEq.refl st
+    · split <;> exact CFlagsEq.refl st
+    · exact CFlagsEq.refl st
   | arr cls a =>
     unfold checkL
     split
-    · exact FlagsEq.refl st
-    · exact FlagsEq.refl st
+    · exact CFlagsEq.refl st
+    · exact CFlagsEq.refl st
   | tuple ts _ ih =>
     unfold checkL
     split
     · split
-      · exact FlagsEq.refl st
+      · exact CFlagsEq.refl st
       · exact checkLs_flags sk ts ih _ st
     · split
-      · exact FlagsEq.refl st
+      · exact CFlagsEq.refl st
       · exact checkLs_flags sk ts ih _ st
-    · exact FlagsEq.refl st
+    · exact CFlagsEq.refl st
   | union ts _ ih =>
     unfold checkL
     exact checkLU_flags sk ts ih x st
